@@ -618,4 +618,220 @@ theorem writeOne_invalid (s : St) (d : Bytes) (hv : ¬ ValidRec s.cfg d) : write
       exact absurd hh hv
   rw [if_pos hvs]
 
+/-! ### the consumer took the pending record -/
+
+theorem moveForward_rep {s : St} {pre : Bytes} {recs : Nat → List Bytes} (h : Rep s pre recs) (hb : PendB s recs) :
+    ∃ pre' recs', Rep (moveForward s) pre' recs' ∧ absQ s recs = s.pending :: absQ (moveForward s) recs' := by
+  obtain ⟨d, rest, b1, b2, b3⟩ := hb
+  have hle := h.le
+  have hcont : s.fs.content s.rf = pre ++ (dqRecord d ++ enc rest) := by rw [h.crf, b1, enc_cons]
+  have hqs : absQ s recs = d :: (rest ++ qFrom recs (s.rf + 1) (s.wf - s.rf)) := by
+    unfold absQ
+    show recs s.rf ++ qFrom recs (s.rf + 1) (s.wf - s.rf) = _
+    rw [b1]; rfl
+  cases b3 with
+  | inl c =>
+    obtain ⟨c1, c2⟩ := c
+    have hq : qFrom (fun i => if i = s.rf then rest else recs i) s.rf (s.wf - s.rf + 1) =
+        rest ++ qFrom recs (s.rf + 1) (s.wf - s.rf) := by
+      show (if s.rf = s.rf then rest else recs s.rf) ++ qFrom _ (s.rf + 1) (s.wf - s.rf) = _
+      rw [if_pos rfl, qFrom_congr _ recs (s.rf + 1) (s.wf - s.rf)
+        (fun j h1 h2 => by show (if j = s.rf then _ else recs j) = recs j; rw [if_neg (by omega)])]
+    have hrep : Rep { s with rf := s.nrf, rp := s.nrp, depth := s.depth - 1 } (pre ++ dqRecord d)
+        (fun i => if i = s.rf then rest else recs i) := by
+      refine ⟨h.cfg, h.live, ?_, ?_, ?_, ?_, ?_, ?_, h.wex, h.wp, ?_, ?_, Or.inl ⟨rfl, rfl⟩, ?_, ?_⟩
+      · show s.nrf ≤ s.wf; rw [c1]; exact hle
+      · intro i x hx
+        by_cases e : i = s.rf
+        · simp only [e, if_true] at hx
+          exact h.vrec s.rf x (by rw [b1]; exact List.mem_cons_of_mem _ hx)
+        · simp only [e, if_false] at hx; exact h.vrec _ x hx
+      · show s.fs.content s.nrf = (pre ++ dqRecord d) ++ enc (if s.nrf = s.rf then rest else recs s.nrf)
+        rw [c1, if_pos rfl, hcont, List.append_assoc]
+      · show s.nrp = (pre ++ dqRecord d).length
+        rw [c2, h.rp, List.length_append, dqRecord_length]
+      · intro i h1 h2
+        show s.fs.content i = enc (if i = s.rf then rest else recs i)
+        replace h1 : s.nrf < i := h1
+        rw [c1] at h1
+        rw [if_neg (by omega)]; exact h.cmid i h1 h2
+      · intro i h1 h2
+        replace h1 : s.nrf ≤ i := h1
+        rw [c1] at h1
+        exact h.ex i h1 h2
+      · intro i hi
+        replace hi : i < s.nrf ∨ s.wf < i := hi
+        rw [c1] at hi
+        exact h.out i hi
+      · show s.depth - 1 = ((qFrom (fun i => if i = s.rf then rest else recs i) s.nrf (s.wf - s.nrf + 1)).length : Int)
+        rw [c1, hq, h.depth]
+        have := congrArg List.length hqs
+        unfold absQ at this
+        rw [this]
+        simp only [List.length_cons, List.length_append]
+        omega
+      · intro ho
+        obtain ⟨_, k2, k3, k4⟩ := h.coh ho
+        refine ⟨rfl, ?_, ?_, ?_⟩
+        · show s.rbuf ++ (s.fs.content s.nrf).drop s.rfd = (s.fs.content s.nrf).drop s.nrp
+          rw [c1]; exact k2
+        · show s.rfd ≤ (s.fs.content s.nrf).length
+          rw [c1]; exact k3
+        · show s.nrp ≤ (s.fs.content s.nrf).length
+          rw [c1]; exact k4
+      · intro ho hlt
+        replace hlt : s.nrf < s.wf := hlt
+        show s.mbr = (s.fs.content s.nrf).length
+        rw [c1] at hlt ⊢
+        exact h.mbr ho hlt
+    refine ⟨pre ++ dqRecord d, (fun i => if i = s.rf then rest else recs i), ?_, ?_⟩
+    · unfold moveForward
+      rw [if_neg (by rw [c1]; simp), checkTail_id hrep]
+      exact hrep
+    · unfold moveForward
+      rw [if_neg (by rw [c1]; simp), checkTail_id hrep, hqs, b2]
+      congr 1
+      show _ = qFrom (fun i => if i = s.rf then rest else recs i) s.nrf (s.wf - s.nrf + 1)
+      rw [c1, hq]
+  | inr c =>
+    obtain ⟨c0, c1, c2, c3, c4⟩ := c
+    have hq : qFrom recs (s.rf + 1) (s.wf - (s.rf + 1) + 1) = qFrom recs (s.rf + 1) (s.wf - s.rf) := by
+      have e : s.wf - (s.rf + 1) + 1 = s.wf - s.rf := by omega
+      rw [e]
+    have hrep : Rep { s with fs := { s.fs with dat := setFile s.fs.dat s.rf none }, rf := s.nrf, rp := s.nrp, depth := s.depth - 1, needSync := true } [] recs := by
+      refine ⟨h.cfg, h.live, ?_, h.vrec, ?_, ?_, ?_, ?_, ?_, ?_, ?_, ?_, Or.inl ⟨rfl, rfl⟩, ?_, ?_⟩
+      · show s.nrf ≤ s.wf; omega
+      · show FS.content { s.fs with dat := setFile s.fs.dat s.rf none } s.nrf = [] ++ enc (recs s.nrf)
+        rw [c2, List.nil_append]
+        unfold FS.content setFile
+        simp only []
+        rw [if_neg (by omega)]
+        exact h.cmid (s.rf + 1) (by omega) (by omega)
+      · show s.nrp = 0; exact c3
+      · intro i h1 h2
+        replace h1 : s.nrf < i := h1
+        show FS.content { s.fs with dat := setFile s.fs.dat s.rf none } i = enc (recs i)
+        unfold FS.content setFile
+        simp only []
+        rw [if_neg (by omega)]
+        exact h.cmid i (by omega) h2
+      · intro i h1 h2
+        replace h1 : s.nrf ≤ i := h1
+        show setFile s.fs.dat s.rf none i ≠ none
+        unfold setFile
+        rw [if_neg (by omega)]
+        exact h.ex i (by omega) h2
+      · show setFile s.fs.dat s.rf none s.wf = none ↔ s.wp = 0
+        unfold setFile
+        rw [if_neg (by omega)]; exact h.wex
+      · show s.wp = (FS.content { s.fs with dat := setFile s.fs.dat s.rf none } s.wf).length
+        unfold FS.content setFile
+        simp only []
+        rw [if_neg (by omega)]; exact h.wp
+      · intro i hi
+        replace hi : i < s.nrf ∨ s.wf < i := hi
+        show setFile s.fs.dat s.rf none i = none
+        unfold setFile
+        by_cases e : i = s.rf
+        · rw [if_pos e]
+        · rw [if_neg e]; exact h.out i (by omega)
+      · show s.depth - 1 = ((qFrom recs s.nrf (s.wf - s.nrf + 1)).length : Int)
+        rw [c2, hq, h.depth]
+        have := congrArg List.length hqs
+        unfold absQ at this
+        rw [this, c1]
+        simp only [List.length_cons, List.nil_append]
+        omega
+      · intro ho; exact absurd ho (by show ¬ s.rOpen = true; rw [c4]; simp)
+      · intro ho; exact absurd ho (by show ¬ s.rOpen = true; rw [c4]; simp)
+    refine ⟨[], recs, ?_, ?_⟩
+    · unfold moveForward
+      rw [if_pos (by rw [c2]; omega), checkTail_id hrep]
+      exact hrep
+    · unfold moveForward
+      rw [if_pos (by rw [c2]; omega), checkTail_id hrep, hqs, b2, c1]
+      congr 1
+      unfold absQ
+      show _ = qFrom recs s.nrf (s.wf - s.nrf + 1)
+      rw [c2, hq, List.nil_append]
+
+/-! ### Empty, Close + New -/
+
+theorem empty_rep {s : St} {pre : Bytes} {recs : Nat → List Bytes} (h : Rep s pre recs) :
+    Rep { deleteAllFiles s with count := 0 } [] (fun _ => []) ∧
+      (∀ i, ({ deleteAllFiles s with count := 0 } : St).fs.dat i = none) := by
+  have hle := h.le
+  have hall : ∀ i, rmRange s.fs.dat s.rf s.wf i = none := by
+    intro i
+    unfold rmRange
+    by_cases e : s.rf ≤ i ∧ i ≤ s.wf
+    · rw [if_pos e]
+    · rw [if_neg e]; exact h.out i (by omega)
+  have hc : ∀ i, FS.content { s.fs with dat := rmRange s.fs.dat s.rf s.wf, md := none } i = [] := by
+    intro i; unfold FS.content; simp only []; rw [hall i]
+  have hq : ∀ a n, qFrom (fun _ => ([] : List Bytes)) a n = [] := by
+    intro a n
+    induction n generalizing a with
+    | zero => rfl
+    | succ n ih => simp [qFrom, ih]
+  refine ⟨⟨h.cfg, h.live, Nat.le_refl _, ?_, ?_, rfl, ?_, ?_, ?_, ?_, ?_, ?_, Or.inl ⟨rfl, rfl⟩, ?_, ?_⟩, hall⟩
+  · intro i x hx; exact absurd hx (by simp)
+  · exact hc _
+  · intro i _ _; exact hc i
+  · intro i h1 h2
+    replace h1 : s.wf + 1 ≤ i := h1
+    replace h2 : i < s.wf + 1 := h2
+    omega
+  · exact ⟨fun _ => rfl, fun _ => hall _⟩
+  · exact (congrArg List.length (hc (s.wf + 1))).symm
+  · intro i _; exact hall i
+  · show (0 : Int) = _
+    rw [hq]; rfl
+  · intro ho; exact absurd ho (by show ¬ (false = true); simp)
+  · intro ho; exact absurd ho (by show ¬ (false = true); simp)
+
+theorem settle_at_tail {t : St} {pre : Bytes} {recs : Nat → List Bytes} (h : Rep t pre recs) (hc : canRead t = false)
+    (hn : t.needSync = false) (hcnt : t.count ≠ t.cfg.syncEvery) : settle t = t := by
+  have hs : syncDue t = t := by
+    unfold syncDue
+    rw [if_neg (by rw [hn]; simp; exact hcnt)]
+  have hstep : settleStep t = (false, t) := by
+    unfold settleStep
+    rw [hs, if_neg (by rw [hc]; simp)]
+  unfold settle
+  have : t.wf + 3 - t.rf = (t.wf + 2 - t.rf) + 1 := by have := h.le; omega
+  rw [this]
+  unfold settleN
+  rw [hstep]
+  simp
+
+theorem reopen_rep {s : St} {pre : Bytes} {recs : Nat → List Bytes} (h : Rep s pre recs) (cfg' : Cfg)
+    (hok : CfgOk cfg') (hmin : cfg'.minMsgSize = s.cfg.minMsgSize) (hmax : cfg'.maxMsgSize = s.cfg.maxMsgSize)
+    (hmd : s.fs.md = some s.metaNow) :
+    Rep (retrieve cfg' s.fs) pre recs ∧ absQ (retrieve cfg' s.fs) recs = absQ s recs := by
+  have hX : retrieve cfg' s.fs = { cfg := cfg', fs := s.fs, depth := s.depth, rf := s.rf, rp := s.rp, wf := s.wf, wp := s.wp, nrf := s.rf, nrp := s.rp } := by
+    unfold retrieve
+    rw [hmd]
+    cases hd : s.fs.dat s.wf with
+    | none =>
+      have e : s.fs.dat s.metaNow.wf = none := hd
+      simp only [e]
+      rfl
+    | some c =>
+      have e : s.fs.dat s.metaNow.wf = some c := hd
+      have hnlt : ¬ s.metaNow.wp < c.length := by
+        show ¬ s.wp < c.length
+        rw [h.wp, content_some hd]; omega
+      simp only [e]
+      rw [if_neg hnlt]
+      rfl
+  rw [hX]
+  refine ⟨⟨hok, rfl, h.le, ?_, h.crf, h.rp, h.cmid, h.ex, h.wex, h.wp, h.out, h.depth, Or.inl ⟨rfl, rfl⟩, ?_, ?_⟩, rfl⟩
+  · intro i x hx
+    have := h.vrec i x hx
+    unfold ValidRec at this ⊢
+    rw [hmin, hmax]; exact this
+  · intro ho; exact absurd ho (by simp)
+  · intro ho; exact absurd ho (by simp)
+
 end Nsq.Proofs.DiskQueue
